@@ -38,6 +38,8 @@ pub struct Item {
     /// Execution cap per tier.
     pub cap_quick: u64,
     pub cap_thorough: u64,
+    /// Run once (in its own single shuttle execution) before the exploration.
+    pub prepare: Option<Arc<dyn Fn() + Send + Sync>>,
 }
 
 impl Item {
@@ -48,6 +50,20 @@ impl Item {
             bound_thorough: bt,
             cap_quick: 150_000,
             cap_thorough: 20_000_000,
+            prepare: None,
+        }
+    }
+    pub fn prepare(mut self, f: impl Fn() + Send + Sync + 'static) -> Item {
+        self.prepare = Some(Arc::new(f));
+        self
+    }
+    fn run_prepare(&self) {
+        if let Some(p) = &self.prepare {
+            let sc = Scenario { name: "prepare".into(), body: p.clone(), max_steps: self.sc.max_steps };
+            let (_o, f, _d) = pbdfs::replay_once(&sc, &[]);
+            if let Some(m) = f {
+                eprintln!("shutx: reference run failed: {}", m);
+            }
         }
     }
     pub fn caps(mut self, q: u64, t: u64) -> Item {
@@ -143,6 +159,7 @@ pub fn main() {
             let its = items(prop).unwrap_or_else(|| exit(2));
             let it = &its[idx];
             let (bound, cap) = if tier == "quick" { (it.bound_quick, it.cap_quick) } else { (it.bound_thorough, it.cap_thorough) };
+            it.run_prepare();
             // Iterative context bounding: bounds 0, 1, ..., bound (the first
             // counterexample found has the fewest preemptions).
             let t0 = std::time::Instant::now();
@@ -181,6 +198,7 @@ pub fn main() {
                 eprintln!("scenario not found");
                 exit(2)
             };
+            it.run_prepare();
             let (o, f, d) = pbdfs::replay_once(&it.sc, &choices);
             for l in &o {
                 println!("{}", l);
